@@ -410,11 +410,22 @@ func scanOutView(c *core.Ctx) []ob {
 					continue
 				}
 				ls := exprString(l)
-				if !strings.Contains(ls, ".Value") && !strings.Contains(ls, ".Coeffs") && !strings.Contains(ls, ".Q") && !strings.Contains(ls, ".P") {
+				// a polynomial, a list of polynomials or a list of residues (metadata copied by value is METASHARE's
+				// business; element stores of residues are data, not views)
+				lt := info.TypeOf(l)
+				if lt == nil || !hasPointers(lt, 0) {
 					continue
 				}
-				// element stores of residues (`p.Coeffs[i][j] = x`) are data, not views
-				if t := info.TypeOf(l); t == nil || !hasPointers(t, 0) {
+				isPolyStore := polyish(lt)
+				if sl, ok := lt.Underlying().(*types.Slice); ok {
+					if inner, ok := sl.Elem().Underlying().(*types.Slice); ok && isUint64(inner.Elem()) {
+						isPolyStore = true
+					}
+					if isUint64(sl.Elem()) {
+						isPolyStore = true
+					}
+				}
+				if !isPolyStore {
 					continue
 				}
 				n++
